@@ -102,10 +102,10 @@ func Division(left, right value.Value) error {
 			lv.Value /= time.Duration(rv.Value)
 		case value.FloatType: // RTIME /= FLOAT
 			rv := value.Unwrap[*value.Float](right)
-			if time.Duration(rv.Value) == 0 {
+			if rv.Value == 0 {
 				return errors.WithStack(fmt.Errorf("division by zero"))
 			}
-			lv.Value /= time.Duration(rv.Value)
+			lv.Value = time.Duration(float64(lv.Value) / rv.Value)
 		default:
 			return errors.WithStack(fmt.Errorf("invalid division RTIME type, got %s", right.Type()))
 		}
